@@ -332,11 +332,7 @@ theorem mixed_single (d : Byte) : mixedDelim [d] = false := by
   cases isSpace d <;> simp
 
 theorem tagCfg_wf (d c : Byte) (h : TagsWF d c) : CfgWF (tagCfg d c) := by
-  refine ⟨by simp [tagCfg], ?_, ?_, rfl, ?_, ?_, ?_, ?_, ?_, ?_⟩
-  · have := h.dt
-    simp only [isText, Bool.and_eq_true, bne_iff_ne, ne_eq] at this
-    simp only [tagCfg, List.contains_cons, List.contains_nil, Bool.or_false, beq_eq_false_iff_ne, ne_eq]
-    exact fun hh => this.2 hh.symm
+  refine ⟨?_, rfl, ?_, ?_, ?_, ?_, ?_, ?_⟩
   · simp only [tagCfg, List.contains_cons, List.contains_nil, Bool.or_false, beq_eq_false_iff_ne, ne_eq]
     exact fun hh => h.dq hh.symm
   · simp only [tagCfg, List.mem_singleton]; exact fun hh => h.cq hh.symm
@@ -492,6 +488,7 @@ theorem inert_block_keep (st : PState) (its : List Item) (hin : ∀ it ∈ its, 
     | comment i cc t => exact ⟨rfl, rfl⟩
     | sect _ _ _ _ => cases hi
     | entry _ => cases hi
+    | keyonly _ _ _ _ => cases hi
 
 theorem cb_fold (c : Byte) (st : PState) (cb : Option Str) (hst : st.cb = none) :
     let st' := (cbItems c cb).foldl expItem st
